@@ -961,6 +961,28 @@ def run(ctx):
         R.scripts(96, 14, 16)
 
     vlib.log("[C03] recorded scripts %.1fs" % (time.time() - t0))
+    # ---- (6) the one-call forms of the automaton commands (bashPrgAbsorb / Squeeze / Encr / Decr incl. empty texts) and the
+    #          bash256 / bash384 / bash512 macro families: lines of harness/drv_misc.c judged by Trace_Misc (reuses BashF / BashPrg)
+    try:
+        md = vlib.harness("drv_misc", ["drv_misc.c"], "rel")
+        mrows = []
+        for part in ("prg", "bash"):
+            mp = ctx.path("misc_%s.ndjson" % part)
+            rc, _, err = vlib.run_harness(md, ["record", "quick" if ctx.quick else "thorough", part], out_path=mp, env={"VERIF_SEED": ctx.seed}, timeout=600)
+            if rc != 0:
+                ctx.violation("onecall:%s:crash" % part, "one-call automaton commands / hash macro families: driver stopped (rc=%d): %s" % (rc, err[-1200:]), err[-4000:])
+            mrows += [json.loads(l) for l in open(mp) if l.strip().endswith("}")]
+        nm, badm, rm = vlib.validate_lines(ctx, "Trace_Misc", mrows, timeout=1500)
+        if nm < len(mrows):
+            ctx.note_inconclusive("Trace_Misc evaluated %d of %d one-call / macro lines (rc=%s)" % (nm, len(mrows), rm.rc))
+        for i in badm:
+            x = mrows[i - 1]
+            ctx.violation("onecall:%s:l=%s:d=%s:%s" % (x.get("op"), x.get("l", x.get("nnn", "")), x.get("d", ""), "keyed" if x.get("key") else "keyless"),
+                          "one-call command sequence / macro family differs from the specification (empty and boundary text lengths included)", {"line": {k: (v if not isinstance(v, list) or len(v) < 48 else v[:48]) for k, v in x.items()}})
+        R.lines_validated += nm
+        ev.cov["onecall_macro_lines_validated"] = nm
+    except (FileNotFoundError, vlib.BuildError) as e:
+        ev.cov["onecall_macro_lines_validated"] = "not available: %s" % str(e)[:80]
     ev.cov["states"] = R.states
     ev.cov["transitions"] = R.transitions
     ev.cov["replayed_behaviours"] = R.replayed
